@@ -323,7 +323,9 @@ theorem saslHandle_nc (m : Used) (fr : Bool) (e : El) (s : St) (h : NC s) :
     NCout (saslHandle s m fr e).2 ∧ NC (saslHandle s m fr e).1 := by
   unfold saslHandle
   split
-  · exact handleStart_nc _ (nc_upd h rfl rfl)
+  · split
+    · exact handleStart_nc _ (nc_upd h rfl rfl)
+    · exact failAuth_nc s h
   · split
     · exact ⟨NCout.cons (send_nc h _) NCout.nil, nc_upd h rfl rfl⟩
     · exact failAuth_nc s h
@@ -337,7 +339,9 @@ theorem sasl2Handle_nc (m : Used) (fr : Bool) (e : El) (s : St) (h : NC s) :
   · split
     · exact ⟨NCout.cons (send_nc h _) NCout.nil, nc_upd h rfl rfl⟩
     · exact failAuth_nc s h
-  · rename_i b r tok
+  · rename_i b r tok proof
+    split
+    case isFalse => exact failAuth_nc s h
     dsimp only
     have h1 : NC { s with authenticated := true, bind2Bound := decide (b ≠ .none),
                           hasToken := s.hasToken || (tok && (s.tokenRequested || s.hasToken)) } := nc_upd h rfl rfl
@@ -876,7 +880,9 @@ theorem saslHandle_red (s : St) (m : Used) (fr : Bool) (e : El) (h : s.redirect 
     (saslHandle s m fr e).1.redirect = false := by
   unfold saslHandle
   split
-  · exact h
+  · split
+    · exact h
+    · exact failAuth_red s h
   · split
     · exact h
     · exact failAuth_red s h
@@ -889,7 +895,9 @@ theorem sasl2Handle_red (s : St) (m : Used) (fr : Bool) (e : El) (h : s.redirect
   · split
     · exact h
     · exact failAuth_red s h
-  · rename_i b r tok
+  · rename_i b r tok proof
+    split
+    case isFalse => exact failAuth_red s h
     dsimp only
     have h1 : ({ s with authenticated := true, bind2Bound := decide (b ≠ S2Bound.none),
                           hasToken := s.hasToken || (tok && (s.tokenRequested || s.hasToken)) } : St).redirect = false := h
